@@ -30,6 +30,13 @@ func overlayFiles() (map[string][]byte, error) {
 		}
 		sub := e.Name()
 		files, _ := filepath.Glob(filepath.Join(harnessDir, sub, "*.go"))
+		if sub != "root" && len(files) > 0 {
+			// every harness package gets the vocabulary of the root package under its own package clause
+			if vb, err := os.ReadFile(filepath.Join(harnessDir, "root", "vocab.go")); err == nil {
+				txt := strings.Replace(string(vb), "package mpb", "package "+filepath.Base(sub), 1)
+				ov[filepath.Join(repoDir, sub, "zz_verif_vocab.go")] = []byte(txt)
+			}
+		}
 		for _, f := range files {
 			if strings.HasSuffix(f, "_test.go") {
 				continue
